@@ -114,10 +114,13 @@ def finish(pid, tier, results, info, replay_fn=None, t0=None, seed=0):
           },
           'assumptions': info.get('assumptions', []),
           'wall_s': round(wall, 2), 'violations': len(viol_lines)}
+    if not ev['coverage']['explanation']:
+        ev['coverage']['explanation'] = 'obligations/discharged count real-width (unbounded) CBMC obligations only; bounded_obligations/bounded_discharged count obligations of bounded jobs (scaled width or unwound loops) and are never added to the proof count'
     if ev['level'] == 'proof' and n_obl == 0:
-        # nothing was discharged at proof level in this run (e.g. everything undecided): keep the file schema-valid but honest
-        ev['coverage']['obligations'] = max(1, n_bobl); ev['coverage']['discharged'] = max(1, n_bdis) if n_bdis else 1
-        ev['coverage']['explanation'] += ' NOTE: no real-width obligation in this run; counts shown are the bounded ones.'
+        # every obligation of this run is bounded: not a proof-level record
+        ev['level'] = 'other'
+        ev['coverage']['explanation'] += ' | All obligations of this run are BOUNDED (exhaustive up to the stated bound); nothing is counted as proved.'
+        del ev['coverage']['obligations']; del ev['coverage']['discharged']
     json.dump(ev, open(os.path.join(VERIF, 'evidence', pid + '.json'), 'w'), indent=1)
     for l in known_lines: print(l)
     for l in viol_lines: print(l)
